@@ -14,6 +14,13 @@ An exception escaping the reader / writer (the documented fall-back to a
 CodeBlock happens inside the reader and is not an exception) is recorded as
 the case's status and turned into the verdicts ReadsWithoutInternalError /
 WritesWithoutInternalError / WrittenTextReadable by the same spec.
+
+Tiers: quick = the fixed families of c01_gen (about 650 programs); thorough adds
+C01_RANDOM (default 800) random combinations of constructs seeded by VERIF_SEED.
+A sample of the reference programs is also compiled with gfortran and compared
+with FortranSem's result (c01_anchor, trusted-base self-test, exit 2 on failure).
+Development knobs: C01_ONLY=<id prefixes,...>  C01_WORKERS=<n>  C01_ANCHOR=0
+C01_CORRUPT=status|literal|drop (binding demonstration: corrupt one recorded case).
 '''
 import json
 import os
@@ -426,7 +433,7 @@ def run(tier):
         from pv import c01_anchor
         base = [p for p in progs if "random" not in p.tags]
         rest = [p for p in progs if "random" in p.tags]
-        sample = base[::8] if tier == "quick" else base + rest[::10]
+        sample = base[::12] if tier == "quick" else base + rest[::10]
         cov["anchor_selftest"] = c01_anchor.anchor(sample, workers=nw)
     cov["rule"] = ("one case = one generated program (reference pv-ast, PSyIR after reading, PSyIR "
                    "after writing and re-reading); non-trivial = read and written without error, "
